@@ -674,6 +674,8 @@ def apply(op, w, stats):
         stats[k] = stats.get(k, 0) + 1
 
     if kind == 'seq':
+        if sum(1 for sub in op[1:] if sub[0] in ('gemm', 'syrk')) >= 2:
+            bump('probe.product_repeated_into_the_same_result_object')
         for sub in op[1:]:
             apply(sub, w, stats)
         return
@@ -848,6 +850,7 @@ def apply(op, w, stats):
             ref_gemm(Ad, Bd, c['D'], tA, tB, alpha, beta)
         _, _, refused = both(kind, fs, fd)
         if not refused and partial:
+            bump('probe.gemm_partial_on_existing_pattern')
             # only the existing pattern of C is computed: project the twin
             D = c['D']
             for j in range(D.size[1]):
@@ -875,6 +878,7 @@ def apply(op, w, stats):
             D = c['D']
             Cd = matrix(C)
             if partial:
+                bump('probe.syrk_partial_on_existing_pattern')
                 for j in range(D.size[1]):
                     for i in range(j, D.size[0]):
                         if (i, j) not in pattern:
@@ -1205,10 +1209,16 @@ def apply(op, w, stats):
     raise ValueError(kind)
 
 
-def check_world(w, opname):
+def check_world(w, opname, stats=None):
     from cvxopt import matrix
     for name, e in w.env.items():
         X, D = e['X'], e['D']
+        if e['sparse'] and stats is not None:
+            nz = sum(1 for v in X.V if v != 0)
+            if nz < len(X):
+                stats['probe.object_with_explicit_zeros_checked'] = stats.get('probe.object_with_explicit_zeros_checked', 0) + 1
+            if X.size[0] * X.size[1] == 0:
+                stats['probe.object_with_zero_dimension_checked'] = stats.get('probe.object_with_zero_dimension_checked', 0) + 1
         if e['sparse']:
             bad = O.ccs_valid(X)
             if bad:
@@ -1287,7 +1297,7 @@ def run_ops(ops, journal, rng=None, nops=0, stats=None, alloc_mode='guard'):
             for k, b in before.items():
                 if k in w.env and O.bits(w.env[k]['X']) != b:
                     raise Mismatch('operand-modified', '%s modified %s, which is not its target' % (name, k), op=name)
-            check_world(w, name)
+            check_world(w, name, stats)
             bad = check_indices()
             if bad:
                 raise Mismatch('operand-modified', '%s: %s' % (name, bad), op=name, operand='index')
